@@ -337,6 +337,19 @@ func (x *Exec) atReturn(st *State, res []Value) {
 		}
 	}
 	env := &Env{x: x, st: st, old: x.entry, names: names}
+	for _, bd := range x.c.Binds {
+		// the body must return exactly the location the contract binds the result to
+		rv, ok1 := names[bd.Name].(PtrV)
+		ev, ok2 := env.eval(bd.E).(PtrV)
+		if !ok1 || !ok2 {
+			x.unsupportedf("binds %s: not a pointer", bd.Name)
+		}
+		g := ptrEq(rv, ev)
+		if bd.Cond != nil {
+			g = Implies(env.evalBool(bd.Cond), g)
+		}
+		x.addObl(st, "ensures", "binds_"+bd.Name, g, "", "result "+bd.Name+" is the location "+bd.E.String())
+	}
 	for _, cl := range x.c.Clauses {
 		if cl.Kind == "ensures" {
 			if strings.HasPrefix(cl.Label, "meta_") {
@@ -414,7 +427,7 @@ func (e *Env) evalRegion(ex *Expr) []Region {
 		return []Region{{IsElem: true, Arr: sv.Arr, Lo: Add(sv.Off, i), Hi: Add(sv.Off, Add(i, IntLit(1))), ElemKey: typeKey(sv.Elem), Desc: ex.String()}}
 	case "call":
 		if ex.Args[0].Op == "id" && ex.Args[0].Name == "gh" {
-			ref := flatten(e.eval(ex.Args[2]))
+			ref := flattenSpec(e.eval(ex.Args[2]))
 			return []Region{{Ref: ref[len(ref)-1], RootKey: "ghost", PathPref: ex.Args[1].Name, Desc: ex.String()}}
 		}
 		if ex.Args[0].Op == "id" && ex.Args[0].Name == "whole" {
